@@ -201,13 +201,470 @@ Proof.
   intros s Hs.
   assert (N : s <> t).
   { intro; subst s. unfold tabs in Hs; simpl in Hs. rewrite In_bdel in Hs.
-    destruct Hs as [Q|[Q|[Q|[Q|[Q|Q]]]]]; try tauto. rewrite E3 in Q. revert Q. apply remove1_notin; auto. }
+    destruct Hs as [Q|[Q|[Q|[Q|[Q|Q]]]]]; try tauto; revert Q; apply remove1_notin; auto. }
   apply In_remove1_neq; auto.
   assert (Hs' : tabs Y s \/ In s (map fst (bufs x)) \/ In s (closeq x)).
-  { unfold tabs in *; simpl in Hs. rewrite In_bdel in Hs. rewrite E3 in Hs.
+  { unfold tabs in *; simpl in Hs. rewrite In_bdel in Hs. rewrite ?E3, ?E4, ?E5 in *.
     destruct Hs as [Q|[Q|Q]]; try tauto. apply In_remove1 in Q. tauto. }
   destruct Hs' as [Q|[Q|Q]]; [|apply Hsub; unfold tabs; tauto|apply Hsub; unfold tabs; tauto].
   apply TU in Q. unfold tabs in Q; simpl in Q.
   destruct Q as [Q|[Q|[Q|[Q|[Q|Q]]]]]; try apply In_remove1 in Q; try apply In_del in Q;
     apply Hsub; unfold tabs; tauto.
+Qed.
+
+(* ------------------------------------------------------------------ effects of one handler invocation *)
+Definition silent1 (e : out) : Prop :=
+  match e with OCall (CRecv _ (RData (_ :: _))) => False | OCall _ => True | OSnap _ => True | OEv _ => False end.
+Definition silent (o : list out) : Prop := Forall silent1 o.
+
+Inductive Eff (t : sock) (x x' : st) (o : list out) : Prop :=
+| EffQ : wf x' -> clients x' = clients x -> silent o -> Eff t x x' o
+| EffR pre d : wf x' -> clients x' = clients x -> In t (clients x) -> d <> [] -> silent pre ->
+    o = pre ++ [OCall (CRecv t (RData d)); OEv (ERead t d)] -> Eff t x x' o
+| EffC pre tail : wf x' -> In t (clients x) -> clients x' = remove1 t (clients x) -> silent pre ->
+    (tail = [OEv (EDisconnect t)] \/ tail = [OEv (EError t); OEv (EDisconnect t)]) ->
+    o = pre ++ tail -> Eff t x x' o.
+
+Lemma silent_app a b : silent a -> silent b -> silent (a ++ b).
+Proof. unfold silent. intros. apply Forall_app; auto. Qed.
+Lemma silent_nil : silent [].
+Proof. constructor. Qed.
+#[local] Hint Resolve silent_nil silent_app : core.
+
+Lemma Eff_pre t x x1 x' o1 o : clients x1 = clients x -> silent o1 -> Eff t x1 x' o -> Eff t x x' (o1 ++ o).
+Proof.
+  intros Ec S1 [W E S|pre d W E I D S ->|pre tail W I E S T ->]; rewrite Ec in *.
+  - apply EffQ; auto.
+  - eapply EffR with (pre := o1 ++ pre); eauto. rewrite app_assoc; auto.
+  - eapply EffC with (pre := o1 ++ pre); eauto. rewrite app_assoc; auto.
+Qed.
+
+Lemma Eff_pre0 t x x1 x' o : clients x1 = clients x -> Eff t x1 x' o -> Eff t x x' o.
+Proof. intros. change o with ([] ++ o). eapply Eff_pre; eauto. Qed.
+
+Lemma do__close_eff hm t x x' o : wf x -> do__close hm t x = (x', o) -> Eff t x x' o.
+Proof.
+  intros W E. destruct (do__close_spec _ _ _ _ _ W E) as [(N & -> & ->)|(I & W' & Ec & ->)].
+  - apply EffQ; auto.
+  - eapply EffC with (pre := []) (tail := [OEv (EDisconnect t)]); eauto.
+Qed.
+
+Lemma do_close_eff hm t x x' o : wf x -> do_close hm t x = (x', o) -> Eff t x x' o.
+Proof.
+  intros W E. unfold do_close in E. destruct (mem t (clients x)) eqn:M; simpl in E.
+  2:{ injection E as <- <-. apply EffQ; auto. }
+  apply mem_In in M. pose proof (wf_touch t x W M) as W1.
+  destruct (isnil (bget t (btouch t (bufs x)))).
+  - apply do__close_eff in E; auto.
+    eapply Eff_pre0; [|eauto]; reflexivity.
+  - destruct (mem t (closeq x)) eqn:Q; injection E as <- <-.
+    + apply EffQ; auto.
+    + apply EffQ; auto. apply (wf_closeq_add t _ W1); auto. simpl. apply mem_nIn; auto.
+Qed.
+
+Lemma on_read_eff hm t r x x' o : wf x -> on_read hm t r x = (x', o) -> Eff t x x' o.
+Proof.
+  intros W E. unfold on_read in E. destruct (mem t (clients x)) eqn:M; simpl in E.
+  2:{ injection E as <- <-. apply EffQ; auto. }
+  apply mem_In in M.
+  destruct r as [[|b d]| | |].
+  - destruct (do_close hm t x) as [x1 o1] eqn:C. injection E as <- <-.
+    apply do_close_eff in C; auto. change (OCall (CRecv t (RData [])) :: o1) with ([OCall (CRecv t (RData []))] ++ o1).
+    eapply Eff_pre; eauto. repeat constructor.
+  - injection E as <- <-. eapply EffR with (pre := []) (d := b :: d); auto; try discriminate; try reflexivity.
+  - destruct (do_close hm t x) as [x1 o1] eqn:C. injection E as <- <-.
+    apply do_close_eff in C; auto. change (OCall (CRecv t REof) :: o1) with ([OCall (CRecv t REof)] ++ o1).
+    eapply Eff_pre; eauto. repeat constructor.
+  - injection E as <- <-. apply EffQ; auto. repeat constructor.
+  - destruct (do__close hm t x) as [x1 o1] eqn:C. injection E as <- <-.
+    destruct (do__close_spec _ _ _ _ _ W C) as [(N & -> & ->)|(I & W' & Ec & ->)]. contradiction.
+    eapply EffC with (pre := [OCall (CRecv t RErr)]) (tail := [OEv (EError t); OEv (EDisconnect t)]); eauto.
+    repeat constructor.
+Qed.
+
+Lemma drained_eff hm t x x' o : wf x -> In t (clients x) -> drained hm t x = (x', o) -> Eff t x x' o.
+Proof.
+  intros W M E. unfold drained in E. pose proof (wf_touch t x W M) as W1.
+  destruct (isnil (bget t (bufs (set_bufs (btouch t (bufs x)) x)))).
+  - destruct (mem t (closeq (set_bufs (btouch t (bufs x)) x))).
+    + apply do__close_eff in E. 2:{ apply wf_closeq_rem; auto. }
+      eapply Eff_pre0; [|eauto]; reflexivity.
+    + destruct (mem t (wr (set_bufs (btouch t (bufs x)) x))); injection E as <- <-.
+      * apply EffQ; auto. apply wf_removeWriter; auto.
+        unfold removeWriter. match goal with |- clients (upd ?a ?b ?c) = _ => destruct (upd_fields a b c) as [-> _] end. auto.
+      * apply EffQ; auto.
+  - injection E as <- <-. apply EffQ; auto.
+Qed.
+
+Lemma on_writable_eff hm t w x x' o : wf x -> on_writable hm t w x = (x', o) -> Eff t x x' o.
+Proof.
+  intros W E. unfold on_writable in E. destruct (mem t (clients x)) eqn:M; cbn [negb] in E.
+  2:{ injection E as <- <-. apply EffQ; auto. }
+  apply mem_In in M. pose proof (wf_touch t x W M) as W0.
+  cbv zeta in E.
+  set (x0 := set_bufs (btouch t (bufs x)) x) in *.
+  assert (C0 : clients x0 = clients x) by reflexivity.
+  destruct (bget t (bufs x0)) as [|n rest].
+  - apply drained_eff in E; auto. eapply Eff_pre0; eauto.
+  - pose proof (wf_bset t rest x0 W0 M) as W1.
+    set (x1 := set_bufs (bset t rest (bufs x0)) x0) in *.
+    assert (C1 : clients x1 = clients x) by reflexivity.
+    assert (SS : silent [OCall (CSend t n)]) by (repeat constructor).
+    destruct w as [k| |].
+    + (* accepted *)
+      set (x2 := if (k <? n)%N then set_bufs (bset t ((n - k)%N :: rest) (bufs x1)) x1 else x1) in *.
+      assert (W2 : wf x2) by (unfold x2; destruct (k <? n)%N; auto; apply wf_bset; auto).
+      assert (C2 : clients x2 = clients x) by (unfold x2; destruct (k <? n)%N; reflexivity).
+      assert (M2 : mem t (clients x2) = true) by (rewrite C2; apply mem_In; auto).
+      rewrite M2 in E. destruct (drained hm t x2) as [x3 o3] eqn:D. injection E as <- <-.
+      apply drained_eff in D; auto. 2:{ rewrite C2; auto. }
+      apply (Eff_pre t x x2 x3 [OCall (CSend t n)] o3); auto.
+    + set (x2 := set_bufs (bset t (n :: rest) (bufs x1)) x1) in *.
+      assert (W2 : wf x2) by (apply wf_bset; auto).
+      assert (C2 : clients x2 = clients x) by reflexivity.
+      assert (M2 : mem t (clients x2) = true) by (rewrite C2; apply mem_In; auto).
+      rewrite M2 in E. destruct (drained hm t x2) as [x3 o3] eqn:D. injection E as <- <-.
+      apply drained_eff in D; auto.
+      apply (Eff_pre t x x2 x3 [OCall (CSend t n)] o3); auto.
+    + destruct (do__close hm t x1) as [x2 o2] eqn:C.
+      destruct (do__close_spec _ _ _ _ _ W1 C) as [(N & -> & ->)|(I & W' & Ec & ->)]. contradiction.
+      assert (M2 : mem t (clients x2) = false).
+      { apply mem_nIn. rewrite Ec. apply remove1_notin. destruct W1; auto. }
+      rewrite M2 in E. injection E as <- <-.
+      eapply EffC with (pre := [OCall (CSend t n)]) (tail := [OEv (EError t); OEv (EDisconnect t)]); eauto.
+Qed.
+
+Lemma on_write_req_eff hm t n x x' o : wf x -> on_write_req hm t n x = (x', o) -> Eff t x x' o.
+Proof.
+  intros W E. unfold on_write_req in E. destruct (mem t (clients x)) eqn:M; simpl in E.
+  2:{ injection E as <- <-. apply EffQ; auto. }
+  apply mem_In in M. injection E as <- <-.
+  destruct (mem t (wr x)) eqn:Q.
+  - apply EffQ; auto. apply wf_bset; auto.
+  - apply mem_nIn in Q. pose proof (wf_addWriter hm t x W M Q) as W1.
+    assert (C1 : clients (addWriter hm t x) = clients x).
+    { unfold addWriter. match goal with |- clients (upd ?a ?b ?c) = _ => destruct (upd_fields a b c) as [-> _] end. auto. }
+    apply EffQ; auto. apply wf_bset; auto. rewrite C1; auto.
+Qed.
+
+(* ------------------------------------------------------------------ observers' view *)
+Lemma count_app {A} (f : A -> bool) a b : count f (a ++ b) = count f a + count f b.
+Proof. unfold count. rewrite filter_app, app_length. auto. Qed.
+Lemma proj_app s a b : proj s (a ++ b) = proj s a ++ proj s b.
+Proof. unfold proj. apply flat_map_app. Qed.
+Lemma reads_app s a b : reads s (a ++ b) = reads s a ++ reads s b.
+Proof. unfold reads. apply flat_map_app. Qed.
+Lemma recvd_app s a b : recvd s (a ++ b) = recvd s a ++ recvd s b.
+Proof. unfold recvd. apply flat_map_app. Qed.
+Lemma phase_app s a b : phase_of s (a ++ b) = fold_left astep (proj s b) (phase_of s a).
+Proof. unfold phase_of. rewrite proj_app, fold_left_app. auto. Qed.
+
+Lemma silent_view s o : silent o ->
+  count (is_disc s) o = 0 /\ count (is_conn s) o = 0 /\ proj s o = [] /\ reads s o = [] /\ recvd s o = [].
+Proof.
+  induction 1 as [|e o He Ho IH]; simpl; auto.
+  destruct IH as (I1 & I2 & I3 & I4 & I5).
+  unfold count in *. simpl. unfold proj, reads, recvd in *. simpl. rewrite I3, I4, I5.
+  destruct e as [e|[q [[|b d]| | |]|q n]|y]; simpl in He; try contradiction; simpl; auto.
+Qed.
+
+Lemma mem_ext s l l' : (In s l <-> In s l') -> mem s l = mem s l'.
+Proof.
+  intros H. destruct (mem s l) eqn:E1, (mem s l') eqn:E2; auto.
+  - apply mem_In in E1. apply H in E1. apply mem_In in E1. congruence.
+  - apply mem_In in E2. apply H in E2. apply mem_In in E2. congruence.
+Qed.
+Lemma mem_true s l : In s l -> mem s l = true.
+Proof. apply mem_In. Qed.
+Lemma mem_false s l : ~ In s l -> mem s l = false.
+Proof. apply mem_nIn. Qed.
+
+Record Inv (A G : list sock) (x : st) (acc : list out) : Prop := {
+  I_wf : wf x;
+  I_sub : forall s, In s x.(clients) -> In s A;
+  I_G : forall s, In s G -> In s A /\ ~ In s x.(clients);
+  I_disc : forall s, count (is_disc s) acc = if mem s A && negb (mem s x.(clients)) then 1 else 0;
+  I_conn : forall s, count (is_conn s) acc = if mem s A && negb (mem s G) then 1 else 0;
+  I_ph : forall s, ~ In s G ->
+         phase_of s acc = if mem s A then if mem s x.(clients) then PLive else PDead else PNone;
+  I_rd : forall s, reads s acc = recvd s acc }.
+
+Lemma Inv_init : Inv [] [] init [].
+Proof. constructor; simpl; auto using wf_init; try tauto. Qed.
+
+Lemma Inv_eff A G t x x' acc o : Inv A G x acc -> Eff t x x' o -> Inv A G x' (acc ++ o).
+Proof.
+  intros [W Hs HG Hd Hc Hp Hr] [W' Ec S|pre d W' Ec I D S ->|pre tail W' I Ec S T ->].
+  - (* nothing observable *)
+    constructor; auto; rewrite ?Ec; auto; intros s; destruct (silent_view s o S) as (V1 & V2 & V3 & V4 & V5).
+    + rewrite count_app, V1, Hd. lia.
+    + rewrite count_app, V2, Hc. lia.
+    + intros NG. rewrite phase_app, V3. simpl. auto.
+    + rewrite reads_app, recvd_app, V4, V5, Hr. auto.
+  - (* one recv -> one read event *)
+    constructor; auto; rewrite ?Ec; auto; intros s; destruct (silent_view s pre S) as (V1 & V2 & V3 & V4 & V5).
+    + rewrite !count_app, V1, Hd. unfold count; simpl. lia.
+    + rewrite !count_app, V2, Hc. unfold count; simpl. lia.
+    + intros NG. rewrite phase_app, proj_app, V3. simpl. destruct (Nat.eqb_spec s t); simpl; auto.
+      subst s. rewrite (Hp t NG), (mem_true t A), (mem_true t (clients x)); auto.
+    + rewrite !reads_app, !recvd_app, V4, V5, Hr. simpl. destruct d; [congruence|].
+      destruct (Nat.eqb s t); auto.
+  - (* the connection ends *)
+    assert (NC : NoDup (clients x)) by (destruct W; auto).
+    assert (Mt : forall s, mem s (clients x') = if Nat.eqb s t then false else mem s (clients x)).
+    { intros s. rewrite Ec. destruct (Nat.eqb_spec s t).
+      - subst. apply mem_false, remove1_notin; auto.
+      - apply mem_ext. split; [apply In_remove1|apply In_remove1_neq; auto]. }
+    constructor; auto.
+    + intros s Hs'. rewrite Ec in Hs'. apply Hs. eapply In_remove1; eauto.
+    + intros s Hs'. destruct (HG s Hs') as [G1 G2]. split; auto. rewrite Ec. intro Q. apply G2. eapply In_remove1; eauto.
+    + intros s. destruct (silent_view s pre S) as (V1 & V2 & V3 & V4 & V5).
+      rewrite !count_app, V1, Hd, Mt. destruct (Nat.eqb_spec s t).
+      * subst s. rewrite (mem_true t A), (mem_true t (clients x)); auto. simpl.
+        destruct T as [->| ->]; unfold count; simpl; rewrite Nat.eqb_refl; auto.
+      * destruct T as [->| ->]; unfold count; simpl; apply Nat.eqb_neq in n; rewrite n; simpl; lia.
+    + intros s. destruct (silent_view s pre S) as (V1 & V2 & V3 & V4 & V5).
+      rewrite !count_app, V2, Hc. destruct T as [->| ->]; unfold count; simpl; lia.
+    + intros s NG. destruct (silent_view s pre S) as (V1 & V2 & V3 & V4 & V5).
+      rewrite phase_app, proj_app, V3, Mt. simpl. rewrite (Hp s NG). destruct (Nat.eqb_spec s t).
+      * subst s. rewrite (mem_true t A), (mem_true t (clients x)); auto.
+        destruct T as [->| ->]; simpl; rewrite Nat.eqb_refl; auto.
+      * apply Nat.eqb_neq in n. destruct T as [->| ->]; simpl; rewrite n; simpl; auto.
+    + intros s. destruct (silent_view s pre S) as (V1 & V2 & V3 & V4 & V5).
+      rewrite !reads_app, !recvd_app, V4, V5, Hr. destruct T as [->| ->]; simpl; auto.
+Qed.
+
+Lemma clients_addReader hm t x : clients (addReader hm t x) = clients x.
+Proof. unfold addReader. match goal with |- clients (upd ?a ?b ?c) = _ => destruct (upd_fields a b c) as [-> _] end. auto. Qed.
+
+Lemma mem_snoc s t l : mem s (l ++ [t]) = mem s l || Nat.eqb s t.
+Proof.
+  destruct (Nat.eqb_spec s t).
+  - subst. rewrite orb_true_r. apply mem_true. apply in_or_app. simpl. auto.
+  - rewrite orb_false_r. apply mem_ext. rewrite in_app_iff. simpl. intuition congruence.
+Qed.
+
+Lemma Inv_accept hm A G t x acc x' o (gn : bool) :
+  Inv A G x acc -> ~ In t A -> on_accept hm t gn x = (x', o) ->
+  Inv (A ++ [t]) (G ++ if gn then [t] else []) x' (acc ++ o).
+Proof.
+  intros [W Hs HG Hd Hc Hp Hr] NA E.
+  assert (NCt : ~ In t (clients x)) by (intro Q; apply NA, Hs, Q).
+  assert (NGt : ~ In t G) by (intro Q; apply NA, (HG t Q)).
+  assert (MA : mem t A = false) by (apply mem_false; auto).
+  assert (MC : mem t (clients x) = false) by (apply mem_false; auto).
+  assert (MG : mem t G = false) by (apply mem_false; auto).
+  pose proof (wf_addReader hm t x W NCt) as W2.
+  unfold on_accept in E. cbv zeta in E. rewrite clients_addReader in E.
+  set (x2 := set_clients (clients x ++ [t]) (addReader hm t x)) in *.
+  assert (C2 : clients x2 = clients x ++ [t]) by reflexivity.
+  destruct gn.
+  - (* reset before accept(): error + disconnect, never announced *)
+    destruct (do__close hm t x2) as [x3 o3] eqn:C. injection E as <- <-.
+    destruct (do__close_spec _ _ _ _ _ W2 C) as [(N & _)|(I & W3 & Ec & ->)].
+    { exfalso. apply N. rewrite C2. apply in_or_app. simpl. auto. }
+    assert (Mt : forall s, mem s (clients x3) = mem s (clients x)).
+    { intros s. rewrite Ec, C2. destruct (Nat.eqb_spec s t).
+      - subst. rewrite MC. apply mem_false, remove1_notin. destruct W2; auto.
+      - apply mem_ext. split.
+        + intro Q. apply In_remove1 in Q. apply in_app_or in Q. simpl in Q. intuition congruence.
+        + intro Q. apply In_remove1_neq; auto. apply in_or_app; auto. }
+    assert (It : forall s, In s (clients x3) -> In s (clients x)).
+    { intros s Q. apply mem_In. rewrite <- Mt. apply mem_In; auto. }
+    constructor; auto.
+    + intros s Q. apply in_or_app. left. auto.
+    + intros s Q. apply in_app_or in Q. destruct Q as [Q|[<-|[]]].
+      * destruct (HG s Q). split. apply in_or_app; auto. intro Q'. apply H0, It, Q'.
+      * split. apply in_or_app; simpl; auto. intro Q'. apply NCt, It, Q'.
+    + intros s. rewrite count_app, Hd, Mt, mem_snoc. unfold count; simpl.
+      destruct (Nat.eqb_spec s t); simpl.
+      * subst. rewrite MA, MC. simpl. auto.
+      * rewrite ?orb_false_r. lia.
+    + intros s. rewrite count_app, Hc, !mem_snoc. unfold count; simpl.
+      destruct (Nat.eqb_spec s t); simpl.
+      * subst. rewrite MA, MG. simpl. auto.
+      * rewrite ?orb_false_r. lia.
+    + intros s NG. rewrite phase_app, Mt, mem_snoc. simpl.
+      assert (s <> t) by (intro; subst; apply NG, in_or_app; simpl; auto).
+      destruct (Nat.eqb_spec s t); [contradiction|]. simpl. rewrite ?orb_false_r. apply Hp.
+      intro Q; apply NG, in_or_app; auto.
+    + intros s. rewrite reads_app, recvd_app, Hr. simpl. auto.
+  - injection E as <- <-. rewrite app_nil_r.
+    constructor; auto.
+    + intros s Q. rewrite C2 in Q. apply in_app_or in Q. apply in_or_app. simpl in *. intuition.
+    + intros s Q. destruct (HG s Q). split. apply in_or_app; auto. rewrite C2. intro Q'.
+      apply in_app_or in Q'. simpl in Q'. destruct Q' as [Q'|[<-|[]]]; auto.
+    + intros s. rewrite count_app, Hd, C2, !mem_snoc. unfold count; simpl.
+      destruct (Nat.eqb_spec s t); simpl.
+      * subst. rewrite MA, MC. simpl. rewrite ?orb_true_r; auto.
+      * rewrite ?orb_false_r. lia.
+    + intros s. rewrite count_app, Hc, !mem_snoc. unfold count; simpl.
+      destruct (Nat.eqb_spec s t); simpl.
+      * subst. rewrite MA, MG. simpl. auto.
+      * rewrite ?orb_false_r. lia.
+    + intros s NG. rewrite phase_app, C2, !mem_snoc. simpl.
+      destruct (Nat.eqb_spec s t); simpl.
+      * subst. rewrite (Hp t NG), MA. simpl. rewrite ?orb_true_r; auto.
+      * rewrite ?orb_false_r. apply Hp; auto.
+    + intros s. rewrite reads_app, recvd_app, Hr. simpl. auto.
+Qed.
+
+Lemma NoDup_snoc_inv (t : nat) A : NoDup (A ++ [t]) -> ~ In t A.
+Proof.
+  intros H Q. apply NoDup_rev in H. rewrite rev_app_distr in H. simpl in H. inversion H; subst.
+  apply H2. rewrite <- in_rev. auto.
+Qed.
+
+Lemma Inv_step hm A G x acc i x' o :
+  Inv A G x acc -> NoDup (A ++ accepted_of i) -> step hm x i = (x', o) ->
+  Inv (A ++ accepted_of i) (G ++ gone_of i) x' (acc ++ o).
+Proof.
+  intros I ND E. pose proof (I_wf _ _ _ _ I) as W.
+  destruct i; simpl in *;
+    try (rewrite !app_nil_r; eapply Inv_eff; [exact I|]).
+  - apply (Inv_accept hm A G s x acc x' o false); auto. apply NoDup_snoc_inv; auto.
+  - apply (Inv_accept hm A G s x acc x' o true); auto. apply NoDup_snoc_inv; auto.
+  - eapply on_read_eff; eauto.
+  - eapply on_writable_eff; eauto.
+  - injection E as <- <-. apply (EffQ s); auto. apply wf_pdrop; auto.
+  - eapply do__close_eff; eauto.
+  - eapply on_write_req_eff; eauto.
+  - eapply do_close_eff; eauto.
+  - injection E as <- <-. apply (EffQ 0); auto. repeat constructor.
+Qed.
+
+Lemma Inv_run_from hm h : forall A G x acc, Inv A G x acc -> NoDup (A ++ accepted h) ->
+  Inv (A ++ accepted h) (G ++ gone h) (fst (run_from hm x acc h)) (snd (run_from hm x acc h)).
+Proof.
+  induction h as [|i t IH]; intros A G x acc HP Hnd; simpl in *.
+  - rewrite !app_nil_r. exact HP.
+  - destruct (step hm x i) as [x' o] eqn:E.
+    unfold accepted, gone in *. simpl in *. rewrite app_assoc in Hnd. rewrite !app_assoc.
+    apply IH; auto. eapply Inv_step; eauto. apply NoDup_app_l in Hnd. exact Hnd.
+Qed.
+
+Lemma Inv_run hm h : NoDup (accepted h) ->
+  Inv (accepted h) (gone h) (fst (run hm h)) (snd (run hm h)).
+Proof. intros. apply (Inv_run_from hm h [] [] init []); auto. apply Inv_init. Qed.
+
+(* ------------------------------------------------------------------ the theorems *)
+Theorem automaton hm h s : NoDup (accepted h) -> ~ In s (gone h) ->
+  phase_of s (snd (run hm h)) =
+  if mem s (accepted h) then if mem s (clients (fst (run hm h))) then PLive else PDead else PNone.
+Proof. intros ND NG. apply (I_ph _ _ _ _ (Inv_run hm h ND)); auto. Qed.
+
+Theorem reads_exact hm h s : NoDup (accepted h) -> reads s (snd (run hm h)) = recvd s (snd (run hm h)).
+Proof. intros ND. apply (I_rd _ _ _ _ (Inv_run hm h ND)). Qed.
+
+Theorem disconnect_once hm h s : NoDup (accepted h) ->
+  count (is_disc s) (snd (run hm h)) =
+  if mem s (accepted h) && negb (mem s (clients (fst (run hm h)))) then 1 else 0.
+Proof. intros ND. apply (I_disc _ _ _ _ (Inv_run hm h ND)). Qed.
+
+Theorem connect_once hm h s : NoDup (accepted h) ->
+  count (is_conn s) (snd (run hm h)) = if mem s (accepted h) && negb (mem s (gone h)) then 1 else 0.
+Proof. intros ND. apply (I_conn _ _ _ _ (Inv_run hm h ND)). Qed.
+
+Lemma count_pos {A} (f : A -> bool) l x : In x l -> f x = true -> count f l >= 1.
+Proof.
+  intros H F. unfold count. assert (Q : In x (filter f l)) by (apply filter_In; auto).
+  destruct (filter f l); simpl in *. contradiction. lia.
+Qed.
+
+Theorem no_trace hm h s : NoDup (accepted h) ->
+  In (OEv (EDisconnect s)) (snd (run hm h)) -> no_state s (fst (run hm h)).
+Proof.
+  intros ND Hd. pose proof (Inv_run hm h ND) as I.
+  pose proof (count_pos (is_disc s) _ _ Hd) as C. simpl in C. rewrite Nat.eqb_refl in C. specialize (C eq_refl).
+  rewrite (I_disc _ _ _ _ I) in C.
+  destruct (mem s (accepted h)); simpl in C; [|lia].
+  destruct (mem s (clients (fst (run hm h)))) eqn:M; simpl in C; [lia|].
+  apply mem_nIn in M. destruct (I_wf _ _ _ _ I) as [_ _ _ _ Hsub].
+  unfold no_state. repeat split; auto; intro Q; apply M, Hsub; unfold tabs; tauto.
+Qed.
+
+(* every table entry belongs to a live connection, at every moment, for every history *)
+Theorem tables_live hm h s : NoDup (accepted h) ->
+  let x := fst (run hm h) in
+  In s (map fst x.(bufs)) \/ In s x.(closeq) \/ In s x.(rd) \/ In s x.(wr) \/ In s x.(tg) \/ In s x.(mp) ->
+  In s x.(clients) /\ In s (accepted h).
+Proof.
+  intros ND x Q. pose proof (Inv_run hm h ND) as I. destruct (I_wf _ _ _ _ I) as [_ _ _ _ Hsub].
+  split. apply Hsub; exact Q. apply (I_sub _ _ _ _ I). apply Hsub; exact Q.
+Qed.
+
+Theorem automaton_refuted :
+  exists h, NoDup (accepted h) /\ phase_of 0 (snd (run true h)) = PBad.
+Proof. exists [SAcceptGone 0]. split. repeat constructor; simpl; tauto. vm_compute. reflexivity. Qed.
+
+(* ------------------------------------------------------------------ client: one disconnected per connected *)
+Definition b2n (b : bool) : nat := if b then 1 else 0.
+
+Lemma cstep_balance x i x' o :
+  match i with KConnect _ => conn x = false | _ => True end -> cstep x i = (x', o) ->
+  count is_kconn o + b2n (conn x) = count is_kdisc o + b2n (conn x').
+Proof.
+  intros P E. destruct x as [c p f]. unfold cstep, c_drained, c_close, c__close in E. simpl in *.
+  destruct i as [ok|[[|b d]| | |]|[k| |] cl| | |n|]; try destruct ok; try destruct cl;
+    destruct c, f; destruct p as [|n0 rest]; simpl in *; try discriminate;
+    repeat (match type of E with
+            | context [if ?a then _ else _] => destruct a; simpl in E
+            end);
+    injection E as <- <-; reflexivity.
+Qed.
+
+Lemma crun_from_balance h : forall x acc, connect_when_down x h = true ->
+  count is_kconn acc = count is_kdisc acc + b2n (conn x) ->
+  count is_kconn (snd (crun_from x acc h)) =
+  count is_kdisc (snd (crun_from x acc h)) + b2n (conn (fst (crun_from x acc h))).
+Proof.
+  induction h as [|i t IH]; intros x acc P B; simpl in *; auto.
+  apply andb_true_iff in P. destruct P as [P1 P2].
+  destruct (cstep x i) as [x' o] eqn:E. simpl in P2.
+  apply IH; auto. rewrite !count_app.
+  assert (Q : count is_kconn o + b2n (conn x) = count is_kdisc o + b2n (conn x')).
+  { apply (cstep_balance x i); auto. destruct i; auto. apply negb_true_iff in P1. auto. }
+  lia.
+Qed.
+
+Theorem client_balance h : connect_when_down cinit h = true ->
+  count is_kconn (snd (crun h)) = count is_kdisc (snd (crun h)) + b2n (conn (fst (crun h))).
+Proof. intros P. apply crun_from_balance; auto. Qed.
+
+(* without the precondition the count is wrong: connect while connected announces a second `connected` *)
+Theorem client_balance_refuted :
+  exists h, count is_kconn (snd (crun h)) = 2 /\ count is_kdisc (snd (crun h)) = 0.
+Proof. exists [KConnect true; KConnect true]. vm_compute. auto. Qed.
+
+(* ------------------------------------------------------------------ readable consequences of the automaton *)
+Lemma bad_absorbing l : fold_left astep l PBad = PBad.
+Proof. induction l; simpl; auto. Qed.
+Lemma dead_then_bad l : l <> [] -> fold_left astep l PDead = PBad.
+Proof. destruct l as [|e l]; [congruence|]. intros _. simpl. destruct e; apply bad_absorbing. Qed.
+
+Lemma phase_not_bad hm h s : NoDup (accepted h) -> ~ In s (gone h) -> phase_of s (snd (run hm h)) <> PBad.
+Proof.
+  intros ND NG. rewrite (automaton hm h s ND NG).
+  destruct (mem s (accepted h)); [destruct (mem s (clients (fst (run hm h))))|]; discriminate.
+Qed.
+
+Theorem nothing_after_disconnect hm h s pre post : NoDup (accepted h) -> ~ In s (gone h) ->
+  proj s (snd (run hm h)) = pre ++ EDisconnect s :: post -> post = [].
+Proof.
+  intros ND NG E. pose proof (phase_not_bad hm h s ND NG) as NB. unfold phase_of in NB. rewrite E in NB.
+  rewrite fold_left_app in NB. simpl in NB.
+  destruct post as [|e post]; auto. exfalso. apply NB.
+  destruct (fold_left astep pre PNone); simpl; try apply bad_absorbing;
+    apply dead_then_bad; discriminate.
+Qed.
+
+Theorem connect_first hm h s e rest : NoDup (accepted h) -> ~ In s (gone h) ->
+  proj s (snd (run hm h)) = e :: rest -> e = EConnect s.
+Proof.
+  intros ND NG E. pose proof (phase_not_bad hm h s ND NG) as NB. unfold phase_of in NB. rewrite E in NB.
+  assert (S : ev_sock e = s).
+  { assert (I : In e (proj s (snd (run hm h)))) by (rewrite E; simpl; auto).
+    unfold proj in I. apply in_flat_map in I. destruct I as [o [_ I]]. destruct o; simpl in I; try contradiction.
+    destruct (Nat.eqb_spec s (ev_sock e0)); simpl in I; [|contradiction]. destruct I as [<-|[]]. auto. }
+  simpl in NB. destruct e; simpl in *; subst; auto; exfalso; apply NB, bad_absorbing.
 Qed.
